@@ -96,6 +96,12 @@ def run(ctx):
                         if abs(float(s1[0]) - top_s) > 1e-9 * top_s: viol('C05:scaled:truncated', f'rank-1 truncation of the matrix scaled by {sname} has the wrong leading value', dict(inp, scale=sname), s1.tolist(), top_s)
                     if fro(utils.quat_matmat(utils.quat_hermitian(Us), Us) - utils.quat_eye(m)) > 1e-9 or fro(utils.quat_matmat(utils.quat_hermitian(Vs), Vs) - utils.quat_eye(n)) > 1e-9: viol('C05:scaled:unitary', f'U or V not unitary for the matrix scaled by {sname}', dict(inp, scale=sname))
                     ctx.count(('scaled', m, n, cls, sname), True)
+            if not tags and cls == spectra(m, n, ctx.quick())[0][0]:
+                for lname, Al in qx.layouts(An):
+                    try: Ul, sl, Vl = qsvd.classical_qsvd_full(Al)
+                    except Exception as e: viol('C05:memory-layout:raises', f'classical_qsvd_full raised {type(e).__name__} for a {lname} argument: {e}', dict(inp, layout=lname)); continue
+                    if fro(utils.quat_matmat(utils.quat_matmat(Ul, diagq(sl, m, n)), utils.quat_hermitian(Vl)) - An) > 1e-9 * sc: viol('C05:memory-layout', f'Q-SVD is wrong for a {lname} argument', dict(inp, layout=lname))
+                    ctx.count(('svd-layout', m, n, lname), True)
             # truncation: Eckart-Young value
             for R in range(1, r + 1):
                 np.linalg.svd = rec_svd
